@@ -29,7 +29,7 @@ CONFIG = {
 }
 
 MIB = 1 << 20
-SMALL = [0, 1, 2, 3, 7, 16, 31, 63, 64, 4095, 4096, 4097, 65536]
+SMALL = [0, 1, 2, 3, 7, 16, 17, 31, 63, 64, 65, 127, 128, 129, 200, 240, 241, 255, 256, 1023, 4095, 4096, 4097, 65536]
 LARGE = [MIB - 1, MIB, MIB + 1, 2 * MIB, 2 * MIB + 1, 3 * MIB + 17]
 HASH_LINE = re.compile(r"^(\w+) \((.*)\) = (\S+)$")
 
@@ -39,6 +39,8 @@ def size_class(n):
         return "0"
     if n < 64:
         return "<64"
+    if n <= 256:
+        return "<=256"
     if n < MIB - 1:
         return "<1MiB"
     if n in (MIB - 1, MIB, MIB + 1):
@@ -53,7 +55,7 @@ def generate(rng, tier):
     n_large = rng.choice([0, 0, 1, 1, 2]) if tier == "quick" else rng.choice([0, 1, 1, 2])
     names = rng.sample(gen.SIMPLE_FILES + ["ünï.bin", "with space.dat"], rng.randint(2, 5))
     for i, n in enumerate(names):
-        size = rng.choice(LARGE) if i < n_large else rng.choice(SMALL)
+        size = rng.choice(LARGE) if i < n_large else (rng.choice(SMALL) if rng.random() < 0.7 else rng.randrange(0, 3000))
         k = rng.random()
         if size == 0:
             c = {"gen": [0, 0]}
